@@ -23,6 +23,9 @@ def run(ctx):
     eoom.run(ctx, F)
     ctx.explain("E-FREELIST.count: an OutOfMemory exit of get_slot_from_shared undoes the +1 it added to the shared node count.")
     efreelist.check_count_bookkeeping(ctx, F)
+    ctx.explain("E-FREELIST.term: the dynamic terminal manager's gc writes the free list it built back to its state "
+                "(freed terminal slots are reusable by the retry).")
+    efreelist.check_terminal_gc(ctx, F)
     ctx.explain("E-EVENT.gc-order: terminals are swept after all inner-node levels, so that one collection after dropping "
                 "the handles of a failed operation frees the terminal slots the retry needs.")
     eevent.check_gc_sweep_order(ctx, F, "oxidd_manager_index")
